@@ -43,6 +43,9 @@ pub struct Case {
     /// messages 10 s apart: the lifecycle is confirmed after 7 messages, so the rest reaches the server loop
     /// while parsing runs (2.5 ms apart: everything is held back until the end of the file)
     slow_clock: bool,
+    /// groups of four messages share reception time and timestamp (lookups that hit such a time exactly)
+    #[serde(default)]
+    dup_times: bool,
 }
 
 fn gen_log(c: &Case) -> Vec<FMsg> {
@@ -194,8 +197,9 @@ fn check(c: &Case, rep: &mut Rep) -> Result<(), String> {
         for (i, f) in fm.iter().enumerate() {
             let mut m = f.build(i as u32);
             m.payload_text = None;
-            m.reception_time_us = BASE + i as u64 * SPACING_US;
-            m.timestamp_dms = i as u32 * (SPACING_US / 100) as u32;
+            let ti = if c.dup_times { i / 4 * 4 } else { i };
+            m.reception_time_us = BASE + ti as u64 * SPACING_US;
+            m.timestamp_dms = ti as u32 * (SPACING_US / 100) as u32;
             m.to_write(&mut w).map_err(|e| e.to_string())?;
         }
         w.flush().map_err(|e| e.to_string())?;
@@ -309,7 +313,8 @@ fn check(c: &Case, rep: &mut Rep) -> Result<(), String> {
         cycles = s.c.log.iter().filter(|f| matches!(f, Frame::FileInfo(_))).count();
         // queries: complete when all messages were available at creation, or in one-pass sessions (they end with the parser)
         for (k, sp) in specs.iter().enumerate() {
-            let complete = !sp.is_query || wait_parsed || c.one_pass;
+            let complete = true; // queries created while parsing runs have to deliver their whole window as well
+            let _ = wait_parsed;
             let exp = expect(k, wins[k]);
             verify(&mut s, ids[k], sp, &exp, wins[k].0, &msgs, "window", complete)?;
         }
@@ -322,7 +327,8 @@ fn check(c: &Case, rep: &mut Rep) -> Result<(), String> {
         // nothing beyond the windows may follow
         s.c.pump(Duration::from_millis(120));
         for (k, sp) in specs.iter().enumerate() {
-            let complete = !sp.is_query || wait_parsed || c.one_pass;
+            let complete = true; // queries created while parsing runs have to deliver their whole window as well
+            let _ = wait_parsed;
             let exp = expect(k, wins[k]);
             verify(&mut s, ids[k], sp, &exp, wins[k].0, &msgs, "window (settled)", complete)?;
         }
@@ -341,6 +347,17 @@ fn check(c: &Case, rep: &mut Rep) -> Result<(), String> {
                     ensure!(s.c.wait_for(Duration::from_secs(20), &|log| log.iter().any(|f| matches!(f, Frame::StreamInfo{id, processed, ..} if chain.contains(id) && *processed as usize >= total))), "stream {} never reported all file messages as processed", idk);
                 }
                 let i = *sel as u64 % (total as u64 + 2);
+                if *place == 3 {
+                    // index lookup: position of the first stream message whose index is not before the requested one
+                    let idx = i as usize;
+                    if idx < total {
+                        let r = s.cmd(&format!("stream_binary_search {} index={}", ids[k], idx))?;
+                        let exp = positions.iter().position(|p| *p >= idx).unwrap_or(positions.len());
+                        ensure!(r.starts_with("ok:") && r.contains(&format!("\"filtered_msg_index\":{}}}", exp)), "index lookup {} on stream {} (sorted session: {}, equal times: {}): {} but the first stream message not before it is at position {}", idx, ids[k], c.sort, c.dup_times, r, exp);
+                    }
+                    continue;
+                }
+                let i = if c.dup_times { i / 4 * 4 } else { i };
                 let t_ms = match place {
                     0 => (BASE + i * SPACING_US) / 1000 + if (i * SPACING_US) % 1000 == 0 { 0 } else { 1 },
                     1 => (BASE + i * SPACING_US + SPACING_US / 2) / 1000,
@@ -407,6 +424,7 @@ fn check(c: &Case, rep: &mut Rep) -> Result<(), String> {
     rep.label_if(between_lookup, "lookup_between_messages");
     rep.label_if(c.noext && fm.iter().any(|m| m.ext.is_none()), "msgs_without_ext_header");
     rep.label_if(c.sort, "sorted_session");
+    rep.label_if(c.dup_times, "equal_message_times");
     let distinct = (0..specs.len()).any(|a| (0..a).any(|b| refpos[a] != refpos[b] || window(a, specs[a].win) != window(b, specs[b].win)));
     rep.nontrivial = (specs.len() >= 2 && distinct) || (c.one_pass && cycles >= 3);
     Ok(())
@@ -495,11 +513,11 @@ pub fn def_sub(tier: Tier) -> Box<dyn DynSub> {
     let case = (
         (prop::collection::vec((0u8..4, 0u8..3, 0u8..8, 0u8..6, prop::bool::weighted(0.3)), 5..120), prop_oneof![4 => Just(0u8), 3 => 1u8..4, 2 => 10u8..30], prop::bool::weighted(0.25)),
         (prop::bool::weighted(0.45), prop::collection::vec(sspec, 1..4)),
-        (0u8..4, prop::bool::weighted(0.2), prop::bool::weighted(0.3), prop::bool::weighted(0.4)),
+        (0u8..4, prop::bool::weighted(0.35), prop::bool::weighted(0.3), prop::bool::weighted(0.4)),
         (prop::option::weighted(0.35, (any::<u8>(), win.clone())), prop::option::weighted(0.35, (any::<u8>(), win))),
-        (prop::collection::vec((any::<u8>(), any::<u16>(), 0u8..3), 0..4), prop::bool::weighted(0.75)),
+        (prop::collection::vec((any::<u8>(), any::<u16>(), 0u8..4), 0..5), prop::bool::weighted(0.75), prop::bool::weighted(0.35)),
     )
-        .prop_map(|((spec, repeat, noext), (one_pass, streams), (throttle, sort, wait_parsed, pause_first), (early_change, stop), (lookups, slow_clock))| Case { spec, repeat, noext, one_pass, streams, throttle, sort, wait_parsed, pause_first, early_change, stop, lookups, slow_clock });
+        .prop_map(|((spec, repeat, noext), (one_pass, streams), (throttle, sort, wait_parsed, pause_first), (early_change, stop), (lookups, slow_clock, dup_times))| Case { spec, repeat, noext, one_pass, streams, throttle, sort, wait_parsed, pause_first, early_change, stop, lookups, slow_clock, dup_times });
     sub("concurrent_streams", tier.pick(260, 7_000), case, check)
         .rates(&[("one_pass_session", 0.3), ("one_pass_ge3_cycles", 0.08), ("collect_all_ge3_cycles", 0.08), ("one_pass_text_stream", 0.1), ("ge2_streams", 0.5), ("stream_and_query", 0.1), ("early_window_change", 0.05), ("stop_with_others_alive", 0.05), ("lookup_between_messages", 0.1), ("msgs_without_ext_header", 0.1)])
         .shrink_iters(40)
